@@ -6,7 +6,9 @@
 # ELF/PE/Mach-O/HEX/SREC files never raises, stays within time and memory limits, returns a format only for inputs
 # carrying its magic, and identifies every valid file as its own format; HEX/SREC garbage lines vs the complete line model.
 # Structured families (gen_structured): S-record files with arbitrary binary S0 header payloads (outcome fixed by the
-# independent validator fmtgen.srec_file_valid) and fat Mach-O files with every subset of arch offset/size fields damaged.
+# independent validator fmtgen.srec_file_valid), fat Mach-O files with every subset of arch offset/size fields damaged, and
+# table descriptors damaged jointly (count x entry size x offset, plus the null section header's extended-numbering fields):
+# all combinations on tiny ELF images of every class / byte order, products and samples for PE, Mach-O and COFF.
 import glob
 import itertools
 import json
@@ -130,6 +132,10 @@ def hot_stage(b, after=3.0):
             return "pe.py:loadsegment"
         for i, n in enumerate(names):
             if n.endswith(":__parse") and i + 1 < len(names):
+                # a record constructed straight from the walk in __parse (StructCore.__new__ / the record's __init__ / unpack,
+                # whichever the timer happens to hit) is not a stage of its own: the walk is
+                if names[i + 1].split(":")[1] in ("__new__", "__init__", "unpack"):
+                    return n
                 return names[i + 1]
         return names[-1] if names else "?"
     except BaseException:
@@ -248,7 +254,7 @@ def gen_inputs(seed, n, files):
 # shipped samples (or the larger synthesised images) as slices this alone costs 3-8 s of CPU time on the unchanged tree
 # (reported, not yet triaged), so self-referencing values are only written into files made of tiny slices unless this is set.
 FAT_SELFREF_HEAVY = False
-SKIP_AFTER_TIMEOUTS = 2     # per worker: further fat inputs are skipped after that many fat inputs ran into the timer
+SKIP_AFTER_TIMEOUTS = 2     # per worker: further inputs of a family (family_of) are skipped after that many of them ran into the timer
 
 
 def srec_header_cases(rng, quick):
@@ -401,11 +407,211 @@ def fat_cases(rng, files, quick):
         yield "fat-nested", img, None
 
 
+# Table descriptors.  A table inside an executable is described by several header fields at once - where it starts, how many
+# entries it has, how large an entry is (and, for ELF, the fields of the null section header that take over when the 16-bit
+# count overflows).  Every parser walks "count entries of entsize bytes from offset", so what a hostile file controls is the
+# *combination*: the families below rewrite those fields together on well-formed images of a few hundred bytes.  None of the
+# damaged files carries an expectation beyond the property's: the format's object or the raw fallback, no foreign exception,
+# CPU time and memory within the limits.
+#
+# A walk of the full 16-bit count with a zero entry size (the same entry read 65535 times) is bounded, but on the unchanged
+# tree it costs 4-7 s of CPU time and about 250 MB for a 400-byte ELF file - inside the limits, close enough to them to trip
+# the timer on a loaded machine (reported, not yet triaged).  Unless this is set, that one combination is generated with the
+# count 0x0FFF instead of 0xFFFF (every other combination keeps 0xFFFF).
+ELF_MAXCOUNT_ZERO_STRIDE = False
+
+
+def elf_table_cases(rng, quick):
+    """tiny well-formed ELF images of every class / byte order; all combinations of
+         count    {0, 1, 0xFFFF, random}
+       x entsize  {0, 1, true - 1, true, true + 1, 0xFFFF}
+       x offset   {0, inside the ELF header, true, second entry of the table, last bytes of the file, beyond the end}
+     for the section header table (e_shnum, e_shentsize, e_shoff) - where the offset designates an entry of the table, also
+       x the extended-numbering fields of that entry (sh_size, sh_link, sh_info) {unchanged, largest positive, all ones}
+     with e_shstrndx one of {true, 0, SHN_XINDEX, count, random} - and for the program header table (e_phnum, e_phentsize,
+     e_phoff; e_phnum 0xFFFF is PN_XNUM); then samples with both tables damaged at once."""
+    for rep in range(1 if quick else 6):
+        for cls in (32, 64):
+            for order in "<>":
+                t = EG.Tiny(rng, cls, order)
+                L, mx = len(t.image), (1 << cls) - 1
+                yield "tbl-elf-intact", t.image, "Elf"
+                she, phe, ehs = t.esz["shdr"], t.esz["phdr"], t.ehdr["e_ehsize"]
+                nulls = [None, dict(sh_size=mx >> 1, sh_link=0x7FFFFFFF, sh_info=0x7FFFFFFF), dict(sh_size=mx, sh_link=0xFFFFFFFF, sh_info=0xFFFFFFFF)]
+
+                def sizes(true):
+                    return [0, 1, true - 1, true, true + 1, 0xFFFF]
+
+                def count(c, ent, off, esz):
+                    if c == 0xFFFF and ent == 0 and 0 < off <= L - esz and not ELF_MAXCOUNT_ZERO_STRIDE:
+                        return 0x0FFF
+                    return c
+
+                def sh_fields(cnt, ent, oname):
+                    off = {"zero": 0, "header": rng.choice([1, 4, 16, 24, ehs - 2]), "true": t.offs["shdr"], "second": t.offs["shdr"] + she,
+                           "tail": L - rng.randrange(1, she), "beyond": rng.choice([L, L + 1, L + she, 0x7FFFFFFF, mx])}[oname]
+                    c = rng.randrange(2, 0x400) if cnt is None else cnt
+                    ndx = rng.choice([t.ehdr["e_shstrndx"], t.ehdr["e_shstrndx"], 0, 0xFFFF, c & 0xFFFF, rng.getrandbits(16)])
+                    return dict(e_shnum=count(c, ent, off, she), e_shentsize=ent, e_shoff=off, e_shstrndx=ndx)
+
+                def ph_fields(cnt, ent, oname):
+                    off = {"zero": 0, "header": rng.choice([1, 4, 16, 24, ehs - 2]), "true": t.offs["phdr"], "tail": L - rng.randrange(1, phe),
+                           "beyond": rng.choice([L, L + 1, L + phe, 0x7FFFFFFF, mx])}[oname]
+                    c = rng.randrange(2, 0x400) if cnt is None else cnt
+                    return dict(e_phnum=count(c, ent, off, phe), e_phentsize=ent, e_phoff=off)
+
+                for cnt in (0, 1, 0xFFFF, None):
+                    for ent in sizes(she):
+                        for oname in ("zero", "header", "true", "second", "tail", "beyond"):
+                            for null in (nulls if oname in ("true", "second") else nulls[:1]):
+                                img = t.with_ehdr(**sh_fields(cnt, ent, oname))
+                                if null:
+                                    img = t.with_shdr(1 if oname == "second" else 0, img, **null)
+                                yield "tbl-elf-sh", img, None
+                for cnt in (0, 1, 0xFFFF, None):
+                    for ent in sizes(phe):
+                        for oname in ("zero", "header", "true", "tail", "beyond"):
+                            yield "tbl-elf-ph", t.with_ehdr(**ph_fields(cnt, ent, oname)), None
+                for k in range(40 if quick else 200):
+                    fs = sh_fields(rng.choice([0, 1, 0xFFFF, None]), rng.choice(sizes(she)), rng.choice(["zero", "header", "true", "second", "tail", "beyond"]))
+                    fs.update(ph_fields(rng.choice([0, 1, 0xFFFF, None]), rng.choice(sizes(phe)), rng.choice(["zero", "header", "true", "tail", "beyond"])))
+                    img = t.with_ehdr(**fs)
+                    null = rng.choice(nulls)
+                    if null:
+                        img = t.with_shdr(rng.choice([0, 0, 1]), img, **null)
+                    yield "tbl-elf-both", img, None
+
+
+def pe_table_cases(rng, quick):
+    """tiny PE32 / PE32+ images: all combinations of NumberOfSections {0, 1, 0xFFFF, random} x SizeOfOptionalHeader (it places
+    the section table) {0, 1, true - 1, true, true + 1, 0xFFFF} x e_lfanew {0, inside the DOS header, true, last bytes, beyond
+    the end}; then samples where NumberOfRvaAndSizes, the (RVA, size) pairs of the directories that are followed when the file
+    is opened (export, import, TLS, load configuration), SizeOfImage / SizeOfHeaders and the section count are damaged together
+    (the section table is neither moved nor extended into the raw data there: a directory that lands in a section header read
+    from the wrong place is the known VirtualSize finding, time|pe.py:loadsegment, at 15 s per input)."""
+    for rep in range(1 if quick else 6):
+        for plus in (False, True):
+            img, fields, true = FG.tiny_pe(rng, plus)
+            L = len(img)
+            yield "tbl-pe-intact", img, "PE"
+            for cnt in (0, 1, 0xFFFF, None):
+                for osz in (0, 1, true["SizeOfOptionalHeader"] - 1, true["SizeOfOptionalHeader"], true["SizeOfOptionalHeader"] + 1, 0xFFFF):
+                    for oname in ("zero", "header", "true", "tail", "beyond"):
+                        off = {"zero": 0, "header": rng.randrange(1, 60), "true": true["e_lfanew"], "tail": L - rng.randrange(1, 24),
+                               "beyond": rng.choice([L, L + 1, 0x7FFFFFFF, 0xFFFFFFFF])}[oname]
+                        yield "tbl-pe-sections", FG._setfields(img, fields, {"NumberOfSections": rng.randrange(3, 0x400) if cnt is None else cnt,
+                                                                             "SizeOfOptionalHeader": osz, "e_lfanew": off}), None
+            soi, rvas = true["SizeOfImage"], true["rvas"]
+            for k in range(120 if quick else 1500):
+                v = {"NumberOfRvaAndSizes": rng.choice([0, 1, 2, 10, 11, 15, 16, 16, 16, 17, 0xFFFF, 0x7FFFFFFF, 0xFFFFFFFF, rng.getrandbits(32)])}
+                for d in rng.sample([0, 1, 9, 10], rng.randrange(1, 4)):
+                    v["dir%d.rva" % d] = rng.choice([0, 1, 0x3C, true["SizeOfHeaders"] - 1, rvas[0], rvas[1], rvas[1] + 31, soi - 1, soi, soi + 1,
+                                                     0x7FFFFFFF, 0xFFFFFFFF, rng.randrange(soi), rng.getrandbits(32)])
+                    v["dir%d.size" % d] = rng.choice([0, 1, 20, 40, soi, 0xFFFF, 0x7FFFFFFF, 0xFFFFFFFF, rng.getrandbits(32)])
+                if rng.random() < 0.4:
+                    v["SizeOfImage"] = rng.choice([0, 1, soi - 1, 0x7FFFFFFF, 0xFFFFFFFF])
+                if rng.random() < 0.4:
+                    v["SizeOfHeaders"] = rng.choice([0, 1, L, 0x7FFFFFFF, 0xFFFFFFFF])
+                if rng.random() < 0.3:
+                    v["NumberOfSections"] = rng.choice([0, 1, 0xFFFF])
+                yield "tbl-pe-directories", FG._setfields(img, fields, v), None
+
+
+def macho_table_cases(rng, quick):
+    """tiny thin Mach-O images with a segment (one section), LC_SYMTAB and LC_UUID: all combinations of ncmds {0, 1, 0xFFFF,
+    random, all ones} x sizeofcmds {0, 1, true - 1, true, true + 1, largest positive, all ones} x cmdsize of the first command
+    {0, 1, 7, 8, true - 1, true, true + 1, all ones}; then samples where nsects and the LC_SYMTAB descriptors (symoff, nsyms,
+    stroff, strsize) and the cmdsize of any command are damaged together."""
+    for rep in range(1 if quick else 6):
+        for is64 in (False, True):
+            img, fields, true = FG.tiny_macho_tables(rng, is64)
+            L = len(img)
+            yield "tbl-macho-intact", img, "MachO"
+            c0 = true["cmdsize"][0]
+            for ncmds in (0, 1, 0xFFFF, None, 0xFFFFFFFF):
+                for soc in (0, 1, true["sizeofcmds"] - 1, true["sizeofcmds"], true["sizeofcmds"] + 1, 0x7FFFFFFF, 0xFFFFFFFF):
+                    for cs in (0, 1, 7, 8, c0 - 1, c0, c0 + 1, 0xFFFFFFFF):
+                        yield "tbl-macho-cmds", FG._setfields(img, fields, {"ncmds": rng.randrange(2, 0x400) if ncmds is None else ncmds, "sizeofcmds": soc,
+                                                                            "cmd0.cmdsize": cs}), None
+
+            def offset():
+                return rng.choice([0, rng.randrange(1, 28), true["symoff"], true["stroff"], L - rng.randrange(1, 12), L, L + 1, 0x7FFFFFFF, 0xFFFFFFFF])
+            for k in range(120 if quick else 1500):
+                v = {}
+                if rng.random() < 0.5:
+                    v["nsects"] = rng.choice([0, 2, 3, 0xFFFF, 0x7FFFFFFF, 0xFFFFFFFF])
+                if rng.random() < 0.8:
+                    v.update(symoff=offset(), nsyms=rng.choice([0, 1, 2, 3, 0xFFFF, 0x7FFFFFFF, 0xFFFFFFFF, rng.randrange(3, 0x400)]))
+                if rng.random() < 0.6:
+                    v.update(stroff=offset(), strsize=rng.choice([0, 1, true["strsize"] - 1, true["strsize"] + 1, 0xFFFF, 0x7FFFFFFF, 0xFFFFFFFF]))
+                if rng.random() < 0.4 or not v:
+                    j = rng.randrange(3)
+                    v["cmd%d.cmdsize" % j] = rng.choice([0, 1, 7, 8, true["cmdsize"][j] - 1, true["cmdsize"][j] + 1, true["cmdsize"][j] + 8, 0x7FFFFFFF, 0xFFFFFFFF])
+                if rng.random() < 0.3:
+                    v["sizeofcmds"] = rng.choice([0, 1, true["sizeofcmds"] - 8, true["sizeofcmds"] + 8, 0xFFFFFFFF])
+                yield "tbl-macho-tables", FG._setfields(img, fields, v), None
+
+
+def coff_table_cases(rng, quick):
+    """tiny System V COFF files with and without the optional header: all combinations of f_nscns {0, 1, 0xFFFF, random} x
+    f_opthdr (it places the section table) {0, 1, true - 1, true, true + 1, 0xFFFF} x f_nsyms {0, 1, true, largest positive,
+    -1}; then samples where the relocation / line number / raw data descriptors of a section header (count, file pointer,
+    size) and the symbol table descriptors are damaged together.  (The intact files carry no expectation: amoco's reader takes
+    the symbol table to follow the section headers and cannot read line number entries - both reported.)"""
+    for rep in range(1 if quick else 6):
+        for opthdr in (False, True):
+            img, fields, true = FG.tiny_coff(rng, opthdr)
+            L = len(img)
+            yield "tbl-coff-intact", img, None
+            for cnt in (0, 1, 0xFFFF, None):
+                for osz in sorted({0, 1, max(true["f_opthdr"] - 1, 0), true["f_opthdr"], true["f_opthdr"] + 1, 0xFFFF}):
+                    for nsyms in (0, 1, true["f_nsyms"], 0x7FFFFFFF, 0xFFFFFFFF):
+                        yield "tbl-coff-sections", FG._setfields(img, fields, {"f_nscns": rng.randrange(3, 0x400) if cnt is None else cnt, "f_opthdr": osz,
+                                                                               "f_nsyms": nsyms}), None
+
+            def pointer():
+                return rng.choice([0, rng.randrange(1, 20), true["section_table"], L - rng.randrange(1, 10), L, L + 1, 0x7FFFFFFF, 0x80000000, 0xFFFFFFFF,
+                                   rng.randrange(L)])
+            for k in range(120 if quick else 1500):
+                v = {}
+                for i in rng.sample([0, 1], rng.randrange(1, 3)):
+                    if rng.random() < 0.7:
+                        v.update({"sec%d.s_nreloc" % i: rng.choice([0, 1, 2, 0xFFFF, rng.randrange(2, 0x400)]), "sec%d.s_relptr" % i: pointer()})
+                    if rng.random() < 0.4:
+                        v.update({"sec%d.s_nlnno" % i: rng.choice([0, 0, 2, 0xFFFF]), "sec%d.s_lnnoptr" % i: pointer()})
+                    if rng.random() < 0.5:
+                        v.update({"sec%d.s_size" % i: rng.choice([0, 1, L, 0x7FFFFFFF, 0xFFFFFFFF]), "sec%d.s_scnptr" % i: pointer()})
+                if rng.random() < 0.5:
+                    v.update(f_symptr=pointer(), f_nsyms=rng.choice([0, 1, 3, 0xFFFF, 0x7FFFFFFF, 0xFFFFFFFF]))
+                if rng.random() < 0.3:
+                    v["f_nscns"] = rng.choice([0, 1, 3, 0xFFFF])
+                yield "tbl-coff-tables", FG._setfields(img, fields, v), None
+
+
+def table_cases(rng, quick):
+    yield from elf_table_cases(rng, quick)
+    yield from pe_table_cases(rng, quick)
+    yield from macho_table_cases(rng, quick)
+    yield from coff_table_cases(rng, quick)
+
+
+def family_of(kind):
+    """inputs of one family share the parsing stage they exercise: once SKIP_AFTER_TIMEOUTS of them ran into the timer in a
+    worker, the rest of the family is skipped there (each costs 15 s)"""
+    if kind.startswith("fat"):
+        return "fat"
+    if kind.startswith("tbl-"):
+        return "-".join(kind.split("-")[:2])
+    return None
+
+
 def gen_structured(seed, files, quick):
     """deterministic per seed; worker i takes the cases whose index is i modulo the number of workers"""
     rng = random.Random(seed * 7919 + 20)
     yield from srec_header_cases(rng, quick)
     yield from fat_cases(rng, files, quick)
+    # (own generator: the cases above stay what they were for a given seed)
+    yield from table_cases(random.Random(seed * 7919 + 2020), quick)
 
 
 def worker(args):
@@ -417,8 +623,9 @@ def worker(args):
     timeouts = {}
     for tag, b, want in itertools.chain(structured, gen_inputs(seed, n, files)):
         kind = tag.split(":")[0]
-        if kind.startswith("fat") and sum(v for (k, _), v in timeouts.items() if k.startswith("fat")) >= SKIP_AFTER_TIMEOUTS:
-            # already failing: do not spend 12 s on each further input of the kind
+        fam = family_of(kind)
+        if fam and sum(v for (k, _), v in timeouts.items() if family_of(k) == fam) >= SKIP_AFTER_TIMEOUTS:
+            # already failing: do not spend 12 s on each further input of the family
             out["skipped"] += 1
             continue
         out["n"] += 1
@@ -542,7 +749,13 @@ def check(run):
                        "record carries any single byte / the mname-ver-rev layout with binary bytes / random binary / text in several encodings, "
                        "valid and with one later record damaged (expected outcome from an independent file validator); fat Mach-O files of 1-4 "
                        "slices (tiny and larger synthesised images, shipped samples) intact, with every non-empty subset of the arch offset / size "
-                       "fields set to 0 and to boundary values, nfat_arch varied, every prefix; corrupted HEX / SREC lines; "
+                       "fields set to 0 and to boundary values, nfat_arch varied, every prefix; table descriptors rewritten together on well-formed "
+                       "images below 1 KB: ELF (4 class / byte order combinations) section header table count {0,1,0xFFFF,random} x entry size "
+                       "{0,1,true-1,true,true+1,0xFFFF} x offset {0, in the ELF header, true, second entry, last bytes, beyond the end} x the designated "
+                       "entry's sh_size/sh_link/sh_info {unchanged, largest positive, all ones}, the same product for the program header table, samples "
+                       "with both; PE NumberOfSections x SizeOfOptionalHeader x e_lfanew and samples of NumberOfRvaAndSizes / directory (RVA, size) / "
+                       "SizeOfImage / SizeOfHeaders; Mach-O ncmds x sizeofcmds x cmdsize and samples of nsects / LC_SYMTAB offsets and counts; COFF "
+                       "f_nscns x f_opthdr x f_nsyms and samples of per-section relocation / line number / raw data descriptors; corrupted HEX / SREC lines; "
                        "distinct by input bytes; every input counts as non-trivial when it passes at least one magic test")
     run.static_part()
     # regenerated obligation: magic prefixes are pairwise disjoint
@@ -604,7 +817,7 @@ def check(run):
             run.cov.setdefault("identified_as", {})[k] = run.cov.setdefault("identified_as", {}).get(k, 0) + v
         run.cov["valid_files_identified"] = run.cov.get("valid_files_identified", 0) + r["valid"]
         if r["skipped"]:
-            run.cov["fat_inputs_skipped_after_timeouts"] = run.cov.get("fat_inputs_skipped_after_timeouts", 0) + r["skipped"]
+            run.cov["inputs_skipped_after_timeouts"] = run.cov.get("inputs_skipped_after_timeouts", 0) + r["skipped"]
         for s in r["samples"]:
             run.sample(s, 3)
         for k, v in sorted(r["finds"].items()):
